@@ -33,7 +33,7 @@ def make_desc(rng, shape):
         for nt in procs:
             p = {"pid": pid, "appid": 1 + (pid % 3), "threads": list(range(tid, tid + nt))}
             if ranks:
-                p["rank"], p["nranks"] = rk, 8
+                p["rank"], p["nranks"] = rk, 64
                 rk += 1
             ps.append(p)
             tid += nt; pid += 1
